@@ -19,8 +19,10 @@ Import ListNotations.
     the part's own octets, or is reported as an error and then the backend did
     fail for this read ([read_failed]: the blob lives in the object store and
     the reader has no S3, or the GET failed, or the object is gone).  Since the
-    repair "blob-read-errors" this covers the former classes ConfigMismatch and
-    ReadFault. *)
+    repairs 12a5042 (read errors) and 573e876 (a part is linked to a blob only
+    if the blob holds its exact octets) the only excluded rows are those of
+    the residual class EmptyPartS3Blob — see c15_residual_class_is_empty_s3 and
+    the unconditional c15_read_own_octets_nonempty below. *)
 Theorem c15_read_own_octets :
   forall (key : str -> str -> str) (okey : str -> str),
   (forall a b, okey a = okey b -> a = b) -> (forall a, okey a <> []) ->
@@ -32,14 +34,37 @@ Theorem c15_read_own_octets :
 Proof. exact read_own_octets. Qed.
 Print Assumptions c15_read_own_octets.
 
-(** outside the de-duplication class no read ever yields foreign or silently
-    empty octets: own octets, or an error. *)
+(** (a)+(d) UNCONDITIONALLY for every non-empty part: every history, every
+    encoding / wrapping / de-duplication pattern, every configuration pair,
+    every fault oracle. *)
+Theorem c15_read_own_octets_nonempty :
+  forall (key : str -> str -> str) (okey : str -> str),
+  (forall a b, okey a = okey b -> a = b) -> (forall a, okey a <> []) ->
+  forall (evs : list event) (m k : nat) (row : partrow) (reader_s3 : bool) (o : oracle),
+  row_of (run key okey evs) m k = Some row -> r_own row <> [] ->
+  spec_read (r_own row) (read_failed reader_s3 (run key okey evs) row o)
+            (rd (read_part reader_s3 (run key okey evs) row o)).
+Proof. exact read_own_octets_nonempty. Qed.
+Print Assumptions c15_read_own_octets_nonempty.
+
+(** the residual class is exactly: an EMPTY part linked to an S3-form blob *)
+Theorem c15_residual_class_is_empty_s3 :
+  forall (key : str -> str -> str) (okey : str -> str), (forall a, okey a <> []) ->
+  forall evs m k row,
+  row_of (run key okey evs) m k = Some row ->
+  classify okey (run key okey evs) row = Some EmptyPartS3Blob ->
+  r_own row = [] /\
+  exists id b kk, r_blob row = Some id /\ get_blob (w_blobs (run key okey evs)) id = Some b /\ b_form b = FS3 kk.
+Proof. exact residual_class_is_empty_s3. Qed.
+Print Assumptions c15_residual_class_is_empty_s3.
+
+(** no read of a non-empty part ever yields foreign or silently empty octets:
+    own octets, or an error. *)
 Theorem c15_read_never_foreign :
   forall (key : str -> str -> str) (okey : str -> str),
   (forall a b, okey a = okey b -> a = b) -> (forall a, okey a <> []) ->
   forall evs m k row reader_s3 o,
-  row_of (run key okey evs) m k = Some row ->
-  classify okey (run key okey evs) row <> Some DedupEncoding ->
+  row_of (run key okey evs) m k = Some row -> r_own row <> [] ->
   rd (read_part reader_s3 (run key okey evs) row o) = Some (r_own row) \/
   rd (read_part reader_s3 (run key okey evs) row o) = None.
 Proof. exact read_never_foreign. Qed.
@@ -68,7 +93,7 @@ Print Assumptions c15_error_only_if_failed.
 (** (b) For every history with every fault oracle: the reference count of
     every blob equals the number of part rows that use it ... *)
 Theorem c15_refcount :
-  forall (key : str -> str -> str) (okey : str -> str) evs id b,
+  forall (key : str -> str -> str) (okey : str -> str), (forall a, okey a <> []) -> forall evs id b,
   get_blob (w_blobs (run key okey evs)) id = Some b ->
   b_refs b = refcount id (all_rows (run key okey evs)).
 Proof. exact refcount_exact. Qed.
@@ -77,13 +102,14 @@ Print Assumptions c15_refcount.
 (** ... no two blobs have the same hash, and two out-of-line parts with the
     same decoded hash share one blob. *)
 Theorem c15_stored_once :
-  forall (key : str -> str -> str) (okey : str -> str) evs,
+  forall (key : str -> str -> str) (okey : str -> str), (forall a, okey a <> []) -> forall evs,
   NoDup (map b_key (w_blobs (run key okey evs))).
 Proof. exact keys_stored_once. Qed.
 Print Assumptions c15_stored_once.
 
 Theorem c15_same_content_same_blob :
-  forall (key : str -> str -> str) (okey : str -> str) evs m1 k1 m2 k2 r1 r2 i1 i2,
+  forall (key : str -> str -> str) (okey : str -> str), (forall a, okey a <> []) ->
+  forall evs m1 k1 m2 k2 r1 r2 i1 i2,
   row_of (run key okey evs) m1 k1 = Some r1 -> row_of (run key okey evs) m2 k2 = Some r2 ->
   r_blob r1 = Some i1 -> r_blob r2 = Some i2 ->
   key (r_enc r1) (r_own r1) = key (r_enc r2) (r_own r2) -> i1 = i2.
@@ -94,11 +120,11 @@ Print Assumptions c15_same_content_same_blob.
     is dropped: the new message has one row per part, each either holding its
     own octets inline or pointing at an existing blob filed under its own hash. *)
 Theorem c15_store_never_drops :
-  forall (key : str -> str -> str) (okey : str -> str) evs writer_s3 o d ps,
+  forall (key : str -> str -> str) (okey : str -> str), (forall a, okey a <> []) -> forall evs writer_s3 o d ps,
   exists rows,
     w_msgs (run key okey (evs ++ [EStore writer_s3 o d ps])) = w_msgs (run key okey evs) ++ [rows] /\
     map r_own rows = map p_content ps /\
-    Forall (row_ok key (w_blobs (run key okey (evs ++ [EStore writer_s3 o d ps])))) rows.
+    Forall (row_ok key okey (w_blobs (run key okey (evs ++ [EStore writer_s3 o d ps])))) rows.
 Proof. exact store_never_drops. Qed.
 Print Assumptions c15_store_never_drops.
 
@@ -119,19 +145,45 @@ Print Assumptions c15_store_fault_falls_back.
 
 (** the premise [objs_ok] of the previous theorem holds in every reachable state *)
 Theorem c15_reachable_objs_ok :
-  forall (key : str -> str -> str) (okey : str -> str) evs, objs_ok okey (w_objs (run key okey evs)).
+  forall (key : str -> str -> str) (okey : str -> str), (forall a, okey a <> []) -> forall evs, objs_ok okey (w_objs (run key okey evs)).
 Proof. exact run_objs_ok. Qed.
 Print Assumptions c15_reachable_objs_ok.
 
-(** ---- where raven still violates the property: de-duplication across
-    encodings (shared with C02), witness on the model instantiated with the Go decoders *)
-Theorem c15_refuted_dedup_encoding :
-  gclass wit_dedup 1 0 = Some DedupEncoding /\
+(** the reference is only ever given back for a blob row that existed before:
+    DecrementBlobReference's "delete the row at count 0" is unreachable from the
+    store loop, and giving the reference back restores the table *)
+Theorem c15_give_back_keeps_row :
+  forall (key : str -> str -> str) (okey : str -> str), (forall a, okey a <> []) ->
+  forall f stored bl enc content id bl',
+  call_ok okey f stored content ->
+  store_blob key f bl enc content OOk = (Some id, bl') ->
+  blob_holds bl' id content stored = false ->
+  find_key bl (key enc content) = Some id /\ decr_ref bl' id = bl.
+Proof. exact give_back_keeps_row. Qed.
+Print Assumptions c15_give_back_keeps_row.
+
+(** ---- where raven still violates the property: the residual of 573e876,
+    witness on the model instantiated with the Go decoders *)
+Theorem c15_refuted_empty_part_s3_blob :
+  gclass wit_empty 1 0 = Some EmptyPartS3Blob /\
+  gown wit_empty 1 0 = Some [] /\
+  gread true wit_empty 1 0 [] = Some (Some crlf) /\
+  violates true wit_empty 1 0 [] = true.
+Proof. exact refuted_empty_part_s3_blob. Qed.
+Print Assumptions c15_refuted_empty_part_s3_blob.
+
+(** the former witness of DedupEncoding (K-dedup) now satisfies the spec, and
+    the old observable does not — regression examples *)
+Example c15_dedup_encoding_repaired :
+  gclass wit_dedup 1 0 = None /\
   gown wit_dedup 1 0 = Some (S_ "QUJDRA==") /\
-  gread false wit_dedup 1 0 [] = Some (Some (S_ "ABCD")) /\
-  violates false wit_dedup 1 0 [] = true.
-Proof. exact refuted_dedup_encoding. Qed.
-Print Assumptions c15_refuted_dedup_encoding.
+  gread false wit_dedup 1 0 [] = Some (Some (S_ "QUJDRA==")) /\
+  violates false wit_dedup 1 0 [] = false /\
+  map b_refs (w_blobs (grun wit_dedup)) = [1].
+Proof. exact dedup_encoding_repaired. Qed.
+
+Example c15_old_dedup_violates_spec : spec_read_ok (S_ "QUJDRA==") false (Some (S_ "ABCD")) = false.
+Proof. exact old_dedup_violates_spec. Qed.
 
 (** the former witnesses of ConfigMismatch / ReadFault now satisfy the spec
     (the read is an error), and the old observable (empty string, no error)
